@@ -342,8 +342,15 @@ def random_oplists(pid, rng, n):
           for _rep in range(rng.randrange(1, 4)):
             recs, upool, ppool = strict_set(rng, delim, rng.randrange(1, 5))
             via = rng.choice(["obj", "str", "path", "str"])
-            kind = rng.randrange(6)
-            if kind == 0:
+            kind = rng.randrange(7)
+            if kind == 6:
+                # an rdflib graph incl. a default (empty) namespace; rdflib only keeps usable namespaces
+                data = [[r["p"], r["u"]] for r in recs if " " not in r["u"] and r["u"] and all(ch.isalnum() or ch in "._-" for ch in r["p"])]
+                if rng.random() < 0.5:
+                    data.append(["", "http://default.example/ns#"])
+                if data:
+                    ops.append({"k": "load", "loader": "rdflib", "data": data, "delim": delim, "via": rng.choice(["obj", "path"])})
+            elif kind == 0:
                 ops.append({"k": "load", "loader": "prefix_map", "data": [[r["p"], r["u"]] for r in recs], "delim": delim, "via": via})
             elif kind == 1:
                 ops.append({"k": "load", "loader": "priority", "data": [[r["p"], [r["u"], *r["us"]]] for r in recs], "delim": delim, "via": via})
@@ -388,7 +395,7 @@ def random_oplists(pid, rng, n):
 
 SIZES = {
     "quick": {"hist": 100, "random": 60, "mc_timeout": 420, "tr_timeout": 900, "probe_cap": 20, "full_n": 4},
-    "thorough": {"hist": 1500, "random": 600, "mc_timeout": 3000, "tr_timeout": 3000, "probe_cap": 28, "full_n": 6},
+    "thorough": {"hist": 1200, "random": 500, "mc_timeout": 3400, "tr_timeout": 3000, "probe_cap": 28, "full_n": 6},
 }
 CMAPS = {"quick": ["ascii", "unicode", "obo", "dcolon"], "thorough": ["ascii", "unicode", "obo", "dcolon", "tokens"]}
 ASSUMPTIONS = [
@@ -424,15 +431,20 @@ def check(pid, tier, seed):
     violations, known, lines = 0, [], []
     cex_ops = []
     for model, invs, extra in world.PLAN[pid]:
-        res = world.model_check(model, tier, invs, extra, sz["mc_timeout"])
-        models.append({"model": model, "invariants": invs + world.MODELS[model].get("always", []) + world.MODELS[model].get("properties", []),
-                       "constants": {**world.MODELS[model]["constants"][tier], **extra}, **res["stats"], "wall_s": round(res["wall"], 1),
-                       "violated": res["violated"]})
-        hists += res["histories"]
-        if res["violated"]:
-            if not res["cex"]:
-                raise MachineryError(f"TLC reports {res['violated']} violated on {model} but no counterexample could be parsed")
-            cex_ops.append((model, res["violated"], world.conc_hist(res["cex"], world.CONCRETE["ascii"])))
+        # thorough: the large instance is model-checked without a dump; the behaviours to replay come from
+        # the quick instance (whose dump is small enough to parse), all signature classes of it
+        runs = [(tier, True)] if tier == "quick" else [("thorough", False), ("quick", True)]
+        for mtier, dump in runs:
+            res = world.model_check(model, mtier, invs, extra if mtier == tier else {k: v for k, v in extra.items()}, sz["mc_timeout"], want_dump=dump)
+            models.append({"model": model, "instance": mtier,
+                           "invariants": invs + world.MODELS[model].get("always", []) + world.MODELS[model].get("properties", []),
+                           "constants": {**world.MODELS[model]["constants"][mtier], **extra}, **res["stats"], "wall_s": round(res["wall"], 1),
+                           "violated": res["violated"]})
+            hists += res["histories"]
+            if res["violated"]:
+                if not res["cex"]:
+                    raise MachineryError(f"TLC reports {res['violated']} violated on {model} but no counterexample could be parsed")
+                cex_ops.append((model, res["violated"], world.conc_hist(res["cex"], world.CONCRETE["ascii"])))
     opts = {"probe_cap": sz["probe_cap"] if pid in QUERY_PROPS else 10, "full_n": 10 if pid == "C08" else 0,
             "probe_inputs": pid == "C10", "methods": METHODS[pid]}
     oplists = [ops for _, _, ops in cex_ops]
